@@ -46,7 +46,7 @@ var checkC08 = register("C08/string", func(c strCase) string {
 func acceptanceTest(t *testing.T, id string, ver int, check func(strCase) string) {
 	c := begin(t, id)
 	defer c.end()
-	c.rec.F.Rule = "neighbourhood: every single-token replacement / insertion / deletion over a vocabulary of ~680 tokens (all names, wrong-case and unknown names, empty name x all codes, X, lower case, junk, empty value, malformed forms) at every position of 6 representative vectors, at each of the three decoders; rapid: valid vectors of every level at every decoder, 0-3 classified token/character edits of valid vectors, single-defect vectors, arbitrary strings (unicode, raw bytes, vector alphabet, token soup); thorough adds coverage-guided native fuzzing with the same oracle. Non-trivial = a rejected input within three edits of a valid vector, or an accepted input that is not in canonical form (v3) / carries an optional group (v2); distinct by hash of (decoder, receiver kind, input)."
+	c.rec.F.Rule = "neighbourhood: every single-token replacement / insertion / deletion over a vocabulary of ~680 tokens (all names, wrong-case and unknown names, empty name x all codes, X, lower case, junk, empty value, malformed forms) at every position of 6 representative vectors, at each of the three decoders; rapid: valid vectors of every level at every decoder, 0-3 classified token/character edits of valid vectors, single-defect vectors, arbitrary strings (unicode, raw bytes, vector alphabet, token soup); thorough adds every pair of token edits over a reduced 50-70 token vocabulary on 2 representative vectors (not counted as distinct: pairs can coincide) and coverage-guided native fuzzing with the same oracle. Non-trivial = a rejected input within three edits of a valid vector, or an accepted input that is not in canonical form (v3) / carries an optional group (v2); distinct by hash of (decoder, receiver kind, input)."
 	c.rec.F.Assumptions = []string{"reference recogniser written from the property statement (v3: hand-written token parser; v2: three anchored regular expressions), sharing no code with the decoders"}
 
 	// ---- bounded-exhaustive neighbourhood ---------------------------------------------------
@@ -74,8 +74,34 @@ func acceptanceTest(t *testing.T, id string, ver int, check func(strCase) string
 			}
 		})
 	}
+	// ---- thorough: every *pair* of token edits over a reduced vocabulary ---------------------------
+	if thorough() {
+		small := gen.SmallVocabulary(ver)
+		reps := representatives(ver)
+		for _, v := range []spec.Vec{reps[0], reps[2]} {
+			var evals, nt int64
+			j := 0
+			lvl := levelOfVec(ver, v)
+			gen.Neighbourhood2(v, small, func(s string) {
+				j++
+				if nviol > 0 || !mine(j) {
+					return
+				}
+				for lv := lvl; lv <= spec.Environmental; lv++ {
+					cs := newStrCase(ver, lv, j%2 == 0, s)
+					evals++
+					if !refAccept(cs) {
+						nt++
+					}
+					evalEnum(c, "string", cs, check, &nviol)
+				}
+			})
+			// pairs may coincide as strings: counted conservatively as evaluations only
+			c.rec.Bulk("neighbourhood-pairs", evals, 0, map[string]int64{"nbhd2:rejected": nt, "nbhd2:accepted": evals - nt})
+		}
+	}
 	// ---- rapid -----------------------------------------------------------------------------------
-	c.rapidStage("rapid", pick(180000, 1000000), func(rt *rapid.T) {
+	c.rapidStage("rapid", pick(180000, 4000000), func(rt *rapid.T) {
 		cs, cl := drawStringCase(rt, ver, int(pick(256, 2048)))
 		acc := refAccept(cs)
 		nt := (!acc && nearValid(cl)) || (acc && string(cs.Input) != canonOf(ver, string(cs.Input), spec.Level(cs.Level)))
